@@ -208,4 +208,11 @@ def get_units():
         us.append(Unit('%s/skip_noise.%s' % (PROP, kind), skip_noise(kind), [PROP], contracts=CS, functions=fns(kind)))
     us.append(Unit('%s/ascii.bad_lrc' % PROP, ascii_bad_lrc, [PROP], contracts=CS, functions=fns('ascii')))
     us.append(Unit('%s/rtu.sticky_header' % PROP, rtu_sticky, [PROP], contracts=CS, functions=fns('rtu')))
+    # through the serial-style server handler: whatever the framer raises on garbage (the per-framing exceptions above), the handler swallows it,
+    # resets the framer and goes on serving - so an exception never leaves stale bytes at the head of the buffer for the next read
+    from .C12 import sync_loop
+    from pyvc.unit import LoopAnn
+    q = 'pymodbus.server.sync.ModbusSingleRequestHandler.handle'
+    us.append(Unit('%s/handler.serial' % PROP, sync_loop('ModbusSingleRequestHandler', tag='C11', fate='reset'), [PROP], functions=[q],
+                   loops={(q, 0): LoopAnn('serve', lambda v, j: True)}))
     return us
